@@ -71,7 +71,7 @@ def r1(ctx):
     if len(co) == 1:
         cb = ctx.body(co[0])
         polls = [(bi, t, tm) for bi, t, tm in cb.real_calls() if tm[1].endswith("Future::poll")]
-        rets = [(g, t, bi) for g, t, bi in cb.local_cases(0)]
+        rets = [(g, t, bi) for g, t, bi in cb.expanded_cases(0)]
         got = ([render(x[2])[:80] for x in polls], [render(t)[:80] for g, t, bi in rets])
         okc = len(polls) == 1 and "sleep_fut" in render(polls[0][2][2][0]) and len(rets) == 1 and render(rets[0][1]) == "Option::Some{0: Result::Err{0: ^error}}" \
             and cb.dominates(polls[0][0], rets[0][2]) and polls[0][0] != rets[0][2]
@@ -143,7 +143,7 @@ def r1(ctx):
 
 def _term_table(ctx, cb, subject="$1"):
     tab = {}
-    for g, term, bi in cb.local_cases(0):
+    for g, term, bi in cb.expanded_cases(0):
         for conj in g:
             key = []
             for a in sorted(conj, key=repr):
@@ -263,7 +263,7 @@ def r5(ctx):
     if len(ds) != 1:
         raise Exception("init_reconnecting_stream coroutine not found")
     b = ctx.body(ds[0])
-    oks = [t for g, t, bi in b.local_cases(0) if render(t).startswith("Result::Ok")]
+    oks = [t for g, t, bi in b.expanded_cases(0) if render(t).startswith("Result::Ok")]
     ok = len(oks) == 1
     r = render(oks[0]) if ok else ""
     ok = ok and r.startswith("Result::Ok{0: StreamExt::chain(stream::once(future::ready(Result::Ok{0: ") and \
